@@ -12,7 +12,7 @@ Inductive err :=
 | EBlockSizeMismatch | ERateMismatch | EChannelsMismatch | EBpsMismatch
 | EShortBlock | ESubframeHeader | ESubframeType | EWastedBits
 | ECodingMethod | EPartitionOrder | EFixedOrder | ELpcOrder | EQlpPrecision
-| ENegativeShift | ETooManySamples | EOther.
+| ENegativeShift | ETooManySamples | EResidualOverflow | EOther.
 
 Inductive panic_kind := POverflow | PDivZero | PChunkZero | PUnwrap | PCapacity | PSlice | PAssert | PFuel.
 
